@@ -73,6 +73,10 @@ def work(item):
             check_term(term, part, configs=configs)
             part.c['scaled_terms'] += 1
         return part
+    if item[0] == 'many':
+        part = core.Part()
+        D.check_many_groups(part, PROPERTY)
+        return part
     if item[0] == 'wrap':
         part = core.Part()
         a = D.alphabet()
@@ -128,6 +132,11 @@ def replay(case):
     if 'value' in case:
         from . import _c06values
         return _c06values.replay(case)
+    if case.get('family') == 'many-groups':
+        part = core.Part()
+        D.check_many_groups(part, PROPERTY)
+        mine = [v for v in part.violations if v['case'] == case]
+        return not mine, '\n'.join(['case: %s' % case] + ['violation kind=%s detail=%s' % (v['kind'], v['detail']) for v in mine])
     part = core.Part()
     check_term(case['term'], part)
     mine = [v for v in part.violations if v['case'].get('width') == case.get('width')
